@@ -78,6 +78,28 @@ def evaluate(case):
         return ["parse_nvra(canonical %r) raised %s" % (canon, exc)]
     if again != exp:
         fails.append("canonical form %r parses to %s, not the fixed point %s" % (canon, again, exp))
+    if not fails and case.get("stretch"):
+        # the same parts stretched to lengths and shapes single-character rendering does not reach: a directory prefix longer
+        # than any file-name limit, '.rpm' occurring inside the directory / name / release, epochs beyond 32 and 64 bits
+        for d_, n_, e_, v_, r_, sfx in (
+                ("d" * 300 + "/", name, epoch, version, release, ""),
+                ("/srv/mirror.rpms/pool/" + "sub-dir.1/" * 30, name, epoch, version, release, ".rpm"),
+                ("pool/x86_64.rpm.d/", name, epoch, version, release, ".rpm"),
+                ("", name + ".rpm-macros", epoch, version, release, ".rpm"),
+                ("", name, epoch, version, release + ".rpmfusion", ".rpm"),
+                ("a/", name, 10 ** 10 + epoch, version, release, ""),
+                ("", name, 2 ** 64 + 12345678901 + epoch, version, release, ".rpm")):
+            s2 = "%s%s-%d:%s-%s.%s%s" % (d_, n_, e_, v_, r_, arch, sfx)
+            exp2 = {"name": n_, "epoch": e_, "version": v_, "release": r_, "arch": arch}
+            try:
+                got2 = C.parse_nvra(s2)
+            except Exception as exc:
+                fails.append("parse_nvra(%r) raised %s: %s (expected %s)" % (s2 if len(s2) < 120 else s2[:60] + "..." + s2[-50:], type(exc).__name__, exc, exp2))
+                continue
+            if got2 != exp2:
+                fails.append("parse_nvra(%r) = %s, expected %s" % (s2 if len(s2) < 120 else s2[:60] + "..." + s2[-50:], got2, exp2))
+        if fails:
+            return fails[:3]
     if p["epoch"]:
         m = Rpms()
         src = arch in ("src", "nosrc")
@@ -117,6 +139,7 @@ def run(ctx):
         for k in range(nrot):
             d = dict(c)
             d["rot"] = (i * 7 + k + ctx.seed) % 61 if ctx.quick else (k * 3 + i) % 63
+            d["stretch"] = (i % 9 == 0 and k == 0)
             allc.append(d)
     ctx.exhaustive = True
     ctx.evaluate(evaluate, allc, label="nvra", key=lambda c: core._digest([c["s"], c["rot"]]), chunk=1000)
